@@ -19,7 +19,9 @@ CFG = dict(
          "distinct by full case content. Falsifier: a Go verifier acceptance whose claim is false for the harness' "
          "own leaves; an inexact consistency acceptance at the HONEST proof length (excluded by theorem "
          "C08_consistency_sound_exact_honest_length) is reported apart from the known finding; digest-log entry count "
-         "against nodesUpto(size).",
+         "against nodesUpto(size); two accepted inclusion (or last-inclusion) proofs for one (position, root) with "
+         "different leaves (theorems C08_ahtree_*_proof_unique); any error of Append/RootAt/InclusionProof/"
+         "ConsistencyProof on a legal history.",
     trusted_base=COMMON_TB + [
         "executable SHA-256 of coq/Merkle/Sha256.v uses Coq's primitive Uint63 integers under vm_compute (only to run "
         "the model; validated against crypto/sha256 by the CSha cases); theorems are about an abstract hash H",
